@@ -403,7 +403,27 @@ class C08(Check):
         ":float columns are not part of the typed split/join model",
     ]
     trusted_base = ["hand-written model lean/Verif/C08/Model.lean, tied to delphin.tsdb/itsdb by the correspondence run",
-                    "generated tables tsdbEscapes, fieldDelimiter, monthNames, monthNumbers read from the live module"]
+                    "generated tables tsdbEscapes, fieldDelimiter, monthNames, monthNumbers read from the live module",
+                    "source translator harness/common/py2lean.py + lean/Verif/Common/PyRt.lean (TRANSLATOR.md) for the "
+                    "*_translated theorems (escape, unescape, untyped split/join)"]
+
+    props_modules = ["Verif.C08.Props", "Verif.C08.Translated"]
+
+    def translation_specs(self):
+        from .common import py2lean as P
+        raw = P.Lst(P.Opt(P.STR))
+        return [
+            P.Spec(tsdb.escape, "escape", [("string", P.STR)], P.STR),
+            P.Spec(tsdb.unescape, "unescape", [("string", P.STR)], P.STR),
+            P.Spec(tsdb.split, "split", [("line", P.STR)], raw, fixed={"fields": None}),
+            P.Spec(tsdb.join, "join", [("values", raw)], P.STR, fixed={"fields": None}),
+        ]
+
+    def translations(self):
+        """Source translation (harness/common/py2lean.py, TRANSLATOR.md): the current source text of these functions
+        becomes lean/Verif/Generated/TransC08.lean; lean/Verif/C08/Translated.lean proves each equal to the model's."""
+        from .common import py2lean as P
+        return P.translate_module(self.translation_specs(), "Verif.Trans.C08")
 
     def tables(self):
         """Pins: the string/number constants of the anchored functions that the hand-written model mirrors
@@ -429,8 +449,9 @@ class C08(Check):
             "def c08ParseDatetimeConsts : List String := [%s]" % ", ".join(lit(c) for c in pd),
             "def c08DateFixConsts : List String := [%s]" % ", ".join(lit(str(c)) for c in df),
             "def c08FormatConsts : List String := [%s]" % ", ".join(lit(c) for c in fm),
-            "def c08EscapeConsts : List String := [%s]" % ", ".join(lit(c) for c in strs(tsdb.escape)),
-            "def c08UnescapeConsts : List String := [%s]" % ", ".join(lit(c) for c in strs(tsdb.unescape)),
+            # escape/unescape are no longer pinned by their constants: their whole source text is translated to Lean
+            # on every run and proved equal to the model (Verif/C08/Translated.lean), which subsumes the constants and
+            # does not fire on a harmless reordering of disjoint tests.
         ]
 
     def cases(self, rng, tier, n):
@@ -517,6 +538,9 @@ class C08(Check):
                 yield gen_typed(rng)
 
     def search_cases(self, rng, tier, n, seeds):
+        # every one-character escape: a newly accepted (or newly rejected) escape letter has a two-character witness
+        for cp in range(0, 128):
+            yield {"kind": "unescape", "op": "unescape", "s": cps("\\" + chr(cp))}
         kinds = sorted({c["kind"] for c in seeds if c["kind"] in
                         ("escape", "unescape", "split", "join", "int", "castint", "float", "date", "castdate",
                          "str", "row")})
